@@ -4,6 +4,9 @@
 def stages(tier):
     return [
         {"name": "raw", "cmd": "unit", "args": ["-prop", "C10"], "check": "Check.Tunnel.check_raw",
+         # this stage only validates the responder model (its propfail is constantly false): when it
+         # breaks, the concrete failing input is looked for by the end-to-end stage, not by a search here
+         "search_budget": 0,
          "timeout": 300, "timeout_thorough": 1800},
         {"name": "e2e", "cmd": "relay", "args": ["-prop", "C10"], "check": "Check.Tunnel.check_tunnel",
          "timeout": 300, "timeout_thorough": 1800},
